@@ -31,12 +31,62 @@ def rand_sp18(rng):
     return sp
 
 
+# keys that are string prefixes of one another without being nested ('opt' / 'opt_level'), digit-string keys
+# (list index look-alikes), and a deep parent with several leaves
+RICH_KEYS = ["opt", "opt_level", "o", "0", "1", "m"]
+RICH_SCALARS = [0, 1, 2, 1.0, 0.5, True, False, None, "x", "y", "0", 128, 64]
+
+
+def rich_value(rng, depth):
+    r = rng.random()
+    if depth >= 4 or r < 0.45:
+        return rng.choice(RICH_SCALARS)
+    if r < 0.6:
+        return [rng.choice([64, 32, 128, 1, 1.0, "x"]) for _ in range(rng.randint(0, 3))]
+    if r < 0.7:
+        return {}
+    keys = rng.sample(["0", "1", "lr", "beta", "o", "opt"], rng.randint(1, 3))
+    return {k: rich_value(rng, depth + 1) for k in keys}
+
+
+def rich_sp(rng, shape):
+    """state points that share a SHAPE (so that diffs/schemas have common deep parents) with varying leaves"""
+    def fill(t, depth=0):
+        if isinstance(t, dict):
+            out = {}
+            for k, v in t.items():
+                if rng.random() < 0.9:
+                    out[k] = fill(v, depth + 1)
+            return out
+        if rng.random() < 0.75:
+            return rng.choice(RICH_SCALARS) if t is None else t if rng.random() < 0.5 else rng.choice(RICH_SCALARS)
+        return rich_value(rng, depth)
+    return fill(shape)
+
+
+def rich_shape(rng):
+    shape = {}
+    for k in rng.sample(RICH_KEYS, rng.randint(1, 4)):
+        shape[k] = rich_value(rng, 1) if rng.random() < 0.6 else None
+    if rng.random() < 0.6:
+        shape["m"] = {"o": {"lr": None, "beta": None, "g": {"p": None, "q": None}}, "n": None}
+    return shape
+
+
 def gen_inputs(tier, rng):
     n = 110 if tier == "quick" else 2500
     descs = []
     for i in range(n):
         jobs, seen = [], set()
+        shape = rich_shape(rng) if i % 2 == 1 else None
         for _ in range(rng.randint(0, 8)):
+            if shape is not None:
+                sp = rich_sp(rng, shape)
+                key = json.dumps(typed(sp), sort_keys=True)
+                if key not in seen:
+                    seen.add(key)
+                    jobs.append(typed(sp))
+                continue
             sp = rand_sp18(rng)
             if i % 3 == 0 and rng.random() < 0.6:
                 sp["a"] = rng.choice([True, 1, 1.0, False, 0, 0.0, -1, -1.0, -2, -2.0])
@@ -51,6 +101,9 @@ def gen_inputs(tier, rng):
     descs.append({"jobs": [typed({"a": {}}), typed({"a": 1})], "pseed": 3})
     descs.append({"jobs": [typed({"a": {"x": "x"}}), typed({"a": {}})], "pseed": 4})
     descs.append({"jobs": [typed({"a": {}, "b": 1}), typed({"a": {}, "b": 2})], "pseed": 5})
+    descs.append({"jobs": [typed({"opt": {}, "opt_level": 1}), typed({"opt": {}, "opt_level": 2})], "pseed": 7})
+    descs.append({"jobs": [typed({"layers": [64, 32]}), typed({"layers": {"0": 128}}), typed({"layers": {"0": 64, "1": 32}})], "pseed": 8})
+    descs.append({"jobs": [typed({"m": {"o": {"lr": 1, "beta": 2}, "n": 0}}), typed({"m": {"o": {"lr": 3, "beta": 4}, "n": 0}})], "pseed": 9})
     descs.append({"jobs": [typed({"a": {"c": {}}}), typed({"a": {"c": {"x": 1}}}), typed({"a": {"c": {}}, "b": 0})], "pseed": 6})
     return descs
 
